@@ -89,6 +89,7 @@ static void arm_faults(void) {
     int persist = getenv("FAULT_PERSIST") ? atoi(getenv("FAULT_PERSIST")) : 0;
     int err = getenv("FAULT_ERRNO") ? atoi(getenv("FAULT_ERRNO")) : ENOSPC;
     int mask = getenv("FAULT_MASK") ? atoi(getenv("FAULT_MASK")) : 255;
+    io_shim_fail_only_manifest(getenv("FAULT_ONLY_MANIFEST") != NULL);
     io_shim_fail(atol(k), persist, err, mask);
   }
 }
